@@ -169,6 +169,7 @@ func runHistory(c *fw.Ctx, idx int, r *fw.Rand) {
 		panic(err)
 	}
 	e := c07.NewExec("C08", cf.backend, cf.String(), st, cf.cap, limit, boxes)
+	e.DeclareShort = true // after seeded change C08-9: limits are about stored bytes, not declared ones
 	if cf.backend == "file" {
 		e.ContentEvery = 8
 	}
